@@ -6,7 +6,8 @@ Domain of the model (anything else is "unspecified" and must not be generated):
   * a message-number argument is either a string of ASCII digits (any length, leading zeros
     allowed; it names that number *mathematically*) or a token that does not start with a digit
     (non-numeric).  "digits followed by junk", trailing blanks and surplus arguments are unspecified;
-  * TOP's line count is a digit string below 2^31 (larger counts are outside the domain), or absent /
+  * TOP's line count is a digit string naming a number below 2^64 (it names that number mathematically;
+    counts of 2^64 and more are outside the domain), or absent /
     non-numeric (unspecified by RFC 1939: the server may refuse or send the whole message);
   * the maildir holds regular files in new/ and cur/ whose mtime lies in the past and whose names do
     not start with '.'; the unique id of a file is its name up to the first ':' (maildir(5)).
@@ -22,7 +23,7 @@ Documented qualifications:
 """
 
 U64 = 1 << 64
-TOP_DOMAIN_MAX = (1 << 31) - 1
+TOP_DOMAIN_MAX = (1 << 64) - 1
 
 
 def is_digits(b):
@@ -278,7 +279,7 @@ class Session:
                 return Expect("err_or_payload", verb, payload=retr_payload(data), index=r[1])
             n = int(args[1])
             if n > TOP_DOMAIN_MAX:
-                raise OutsideDomain("TOP line count above 2^31-1")
+                raise OutsideDomain("TOP line count of 2^64 or more")
             return Expect("payload", verb, payload=top_payload(data, n), index=r[1])
         # anything else (including USER/PASS/APOP, which belong to the AUTHORIZATION state)
         return Expect("err", verb, "unknown-command")
